@@ -400,6 +400,17 @@ partial def loopIO (h : IO.FS.Stream) : IO Unit := do
   | "STR" :: rest => IO.println (runStr rest)
   | "OP" :: rest => IO.println (runOp rest)
   | "CMPSTATS" :: rest => IO.println (runCmpStats rest)
+  | "ARGV" :: rest =>
+    match rest.mapM unhex with
+    | some args =>
+      match Options.parse args with
+      | .ok d =>
+        let items := (d.mergeSort (fun a b => a.1 ≤ b.1)).map (fun e => hexOf e.1 ++ "=" ++ (match e.2 with
+          | .b true => "T" | .b false => "F" | .s v => "s" ++ hexOf v | .i n => "i" ++ toString n | .none => "N"))
+        IO.println ("OK " ++ " ".intercalate items)
+      | .error .usage => IO.println "UsageError"
+      | .error _ => IO.println "OTHER-ERROR"
+    | none => IO.println "BAD-INPUT"
   | "OPTS" :: rest => IO.println (runOpts rest)
   | "SESSION" :: rest => IO.println (runSessionLine rest)
   | ["PARSE", hex] => IO.println (runParse hex)
